@@ -52,7 +52,11 @@ def scenarios(tier):
         ops = pages * 3          # erase per page, then (set address, write) per page
         for i in range(ops):
             for status in ((4, 7) if tier == 'thorough' else (4,)):
-                out.append({'length': n, 'schedule': {str(i): {'status': status}}, 'page_count': 128, 'kind': 'error', 'at': [i]})
+                # the error is reported at once, or only after the device answered busy (status OK) once or twice
+                for busy in (0, 1, 2):
+                    for lenient in (False, True):
+                        out.append({'length': n, 'schedule': {str(i): {'status': status, 'busy_polls': busy, 'poll_ms': 2}}, 'page_count': 128,
+                                    'kind': 'error', 'at': [i], 'lenient': lenient})
         if tier == 'thorough':
             for i in range(ops):
                 for j in range(i + 1, ops):
